@@ -393,6 +393,10 @@ def run(rep, tier):
         _c05.clause_e(f5, rep, nss5)
         _c05.clause_f(f5, rep, nss5)
         _c05.clause_g(f5, rep, nss5)
+        # white-space / structural masks: width and composition of the SIMD bitmasks (shared with C15)
+        from . import c15 as _c15
+        _c15.clause_f(f5, rep)
+        _c15.clause_g(f5, rep)
     if tier == 'quick':
         # arch-specific source of the SSE configuration (white-space tables, padding vs. load widths): cheap, every run
         facts3 = get_facts('K3')
